@@ -570,6 +570,8 @@ class BuildAlg:
     def n_quad(self, V, Q, style):
         v = self.ev(V)
         Qa = np.array(Q, dtype=float)
+        if (len(Q) + int(abs(Q[0][0]) * 4)) % 3 == 0:
+            Qa = np.asfortranarray(Qa)  # column-major memory order for a third of the matrices (deterministic in the data)
         if style == "dot_matvec":
             return v.dot(Qa @ v)
         if style == "dot_matmul_fn":
@@ -660,6 +662,10 @@ class BuildAlg:
     def n_matvec(self, A, V, style):
         v = self.ev(V)
         Aa = np.array(A, dtype=float)
+        if style.endswith("_f"):
+            # the same matrix in column-major memory order (what A.T of a row-major array is)
+            Aa = np.asfortranarray(Aa)
+            style = style[:-2]
         if style == "op":
             return Aa @ v
         return self.ox.matmul(Aa, v)
